@@ -25,7 +25,11 @@ def crate_dir():
     path, so that runs against different copies of the repository (the real /repo, scratch worktrees
     with a seeded defect) never share a manifest.  The sources stay in /verif/harness/src."""
     r = repo_dir()
-    name = "crate-main" if r == "/repo" else "crate-" + hashlib.sha1(r.encode()).hexdigest()[:10]
+    default_h = os.path.join(VERIF, "harness")
+    if r == "/repo" and HARNESS == default_h:
+        name = "crate-main"
+    else:
+        name = "crate-" + hashlib.sha1((r + "|" + HARNESS).encode()).hexdigest()[:10]
     return os.path.join(BUILD, name)
 
 
